@@ -105,6 +105,87 @@ def rounded(ts):
     return [({v: r4(a) for v, a in t[0].items()}, r4(t[1])) for t in ts]
 
 
+def compound_roundtrip(ctx, rng, stats):
+    """PolyhedralIoContractCompound.to_dict / from_strings and the file writer/reader on compound contracts (<=4-significant-digit data, so
+    the printed strings are exact): every alternative of either side must come back; in particular a guarantee alternative that
+    merely restates an assumption alternative, and alternatives repeated within a side"""
+    import compound_cases as cc
+    from pacti.contracts.polyhedral_iocontract import PolyhedralIoContractCompound
+    nv = rng.randint(1, 3)
+    vs = rng.sample(cc.VARS, nv)
+    ni = rng.randint(1, nv)
+    ins, outs = vs[:ni], vs[ni:]
+    a_alts = cc.rand_nested(rng, ins, "disjoint")
+    g_alts = cc.rand_nested(rng, vs)
+    r = rng.random()
+    if r < 0.45 and a_alts:
+        g_alts.insert(rng.randint(0, len(g_alts)), [t for t in rng.choice(a_alts)])       # a mode that restates the input region
+    elif r < 0.6 and g_alts:
+        g_alts.append([t for t in g_alts[0]])
+    if any(not t[0] for a in a_alts + g_alts for t in a) or any(not a for a in a_alts + g_alts):
+        return
+    if any(not pp.is_feasible(a) for a in a_alts + g_alts):
+        return
+    okind, k1, _ = pp.observe(lambda: cc.mkcompound({"a": a_alts, "g": g_alts, "i": ins, "o": outs}))
+    if okind != "ok":
+        return
+    stats["compound_roundtrips"] = stats.get("compound_roundtrips", 0) + 1
+    jal = lambda alts: [[cf.jsonable_term(t) for t in a] for a in alts]     # noqa: E731
+    info = {"assumption_alternatives": jal(a_alts), "guarantee_alternatives": jal(g_alts), "inputs": ins, "outputs": outs}
+
+    def compare(back, how):
+        if [str(x) for x in back.inputvars] != ins or [str(x) for x in back.outputvars] != outs:
+            ctx.violation("serialize:compound_interface_changed", "interface of a compound contract changed through " + how, info)
+            return
+        for side, orig, got in (("assumptions", a_alts, cc.nested_of(back.a)), ("guarantees", g_alts, cc.nested_of(back.g))):
+            # union semantics: every original alternative must be covered by the alternatives read back, and nothing new may appear
+            for alt in orig:
+                if not any(equivalent_tol(alt, b) for b in got):
+                    w = next((pt for pt in (lp_point(alt),) if pt is not None and not any(all(lp.holds_at(t, pt) for t in b) for b in got)), None)
+                    if w is not None:
+                        ctx.violation("serialize:compound_alternative_lost", f"an alternative of the {side} of a compound contract is gone after " + how,
+                                      dict(info, side=side, read_back=jal(got), point_no_longer_inside={x: str(q) for x, q in w.items()}))
+                        return
+            for b in got:
+                if not any(equivalent_tol(alt, b) for alt in orig):
+                    w = lp_point(b)
+                    if w is not None and not any(all(lp.holds_at(t, w) for t in alt) for alt in orig):
+                        ctx.violation("serialize:compound_alternative_added", f"the {side} of a compound contract gained behaviours through " + how,
+                                      dict(info, side=side, read_back=jal(got), new_point={x: str(q) for x, q in w.items()}))
+                        return
+
+    okind, d, _ = pp.observe(lambda: k1.to_dict())
+    if okind != "ok":
+        ctx.violation("serialize:compound_to_dict_failed", f"to_dict of a compound contract raised {d}", info)
+        return
+    okind, v, _ = pp.observe(lambda: PolyhedralIoContractCompound.from_strings(**copy.deepcopy(d)))
+    if okind == "ok":
+        compare(v, "to_dict / from_strings")
+    else:
+        ctx.violation("serialize:compound_unreadable", f"from_strings(**to_dict()) of a compound contract raised {v}", dict(info, dictionary=d))
+    fd, fn = tempfile.mkstemp(suffix=".json")
+    os.close(fd)
+    try:
+        write_contracts_to_file([k1], ["modes"], fn, machine_representation=False)
+        okind, v, _ = pp.observe(lambda: read_contracts_from_file(fn))
+    finally:
+        os.remove(fn)
+    if okind == "ok" and len(v[0]) == 1:
+        compare(v[0][0], "the human-readable file")
+    else:
+        ctx.violation("serialize:compound_unreadable", f"a written compound-contract file could not be read back: {v}", info)
+
+
+def lp_point(alt):
+    """an exact point of the alternative, well inside where possible"""
+    vs = lp.term_vars(alt)
+    for margin in (F(1, 8), F(0)):
+        r = lp.feasible([(t[0], t[1] - margin * sum(abs(a) for a in t[0].values())) for t in alt] + lp.box_terms(vs, F(100)))
+        if r["status"] != "infeasible":
+            return {x: r["point"].get(x, F(0)) for x in vs}
+    return None
+
+
 def check(ctx):
     ctx.cov["rule"] = (
         "contracts over <=4 variables whose constraints mention >=1 variable, magnitudes in [1e-4,1e6]: integers, decimals with "
@@ -112,7 +193,9 @@ def check(ctx):
         "negated / unrelated constants in every position; to_machine_dict/from_dict and both file representations through real "
         "temporary files; model/Json.v and model/Printer.v compared with the implementation inside Coq (dictionaries exactly, "
         "strings character by character, %.4g on doubles across decades, ties and the fixed/scientific switch-over). "
-        "non-trivial = the contract has at least one constraint; distinct by canonical contract")
+        "machine files holding two contracts that print alike (same four digits) but differ beyond the tolerance; compound contracts "
+        "through to_dict / from_strings and the human-readable file, alternative by alternative (a guarantee alternative restating an "
+        "assumption alternative, repeated alternatives). non-trivial = the contract has at least one constraint; distinct by canonical contract")
     proved = ctx.prove("props/C10.v", ["proofs/JsonFacts.v", "proofs/PrinterFacts.v", "proofs/JsonGenValidate.v", "proofs/JsonGenDict.v", "proofs/JsonGenFile.v", "proofs/PrinterGenOpposite.v", "proofs/PrinterGenLhs.v", "proofs/PrinterGenFold.v"])
     proved = ctx.prove("props/C10b.v", ["proofs/RoundTripFacts.v"]) and proved      # the string half: printed strings read back
     ctx.build(["model/Json.vo", "model/Printer.vo"])
@@ -194,6 +277,43 @@ def check(ctx):
                                 break
                 else:
                     ctx.violation("serialize:file_unreadable", f"a written multi-entry machine file could not be read back: {v}", info)
+        # ---- one machine file holding contracts whose numbers differ by less than what is PRINTED (same four digits) but by more
+        #      than the tolerance: every entry must come back with its own numbers
+        if k % 6 == 1 and c["g"]:
+            m4 = F(rng.randint(1000, 2400), 1000)
+            e10 = F(10) ** rng.randint(-2, 5)
+            lo_c, hi_c = (m4 - F(4, 10000)) * e10, (m4 + F(4, 10000)) * e10
+            sgn = 1 if c["g"][0][1] >= 0 else -1
+            twins = [dict(c, g=[(c["g"][0][0], sgn * x)] + c["g"][1:]) for x in ((lo_c, hi_c) if rng.random() < 0.5 else (hi_c, lo_c))]
+            if all(pp.is_feasible(t["a"] + t["g"]) for t in twins):
+                try:
+                    objs = [gen.mkcontract(t) for t in twins]
+                except Exception:
+                    objs = []
+                if objs:
+                    twins = [cf.contract_of(o) for o in objs]
+                    names = ["lo", "hi"] if rng.random() < 0.7 else ["same", "same"]
+                    fd, fn = tempfile.mkstemp(suffix=".json")
+                    os.close(fd)
+                    try:
+                        write_contracts_to_file(objs, names, fn, machine_representation=True)
+                        okind, v, _ = pp.observe(lambda: read_contracts_from_file(fn))
+                    finally:
+                        os.remove(fn)
+                    stats["near_print_twin_files"] = stats.get("near_print_twin_files", 0) + 1
+                    info = dict(payload, names=names, contracts=[cf.jsonable_contract(t) for t in twins], printed=[str(o) for o in objs])
+                    if okind != "ok" or len(v[0]) != 2:
+                        ctx.violation("serialize:file_unreadable", f"a written two-entry machine file could not be read back entry by entry: {v if okind != 'ok' else len(v[0])}", info)
+                    else:
+                        for t, gb in zip(twins, v[0]):
+                            b = cf.contract_of(gb)
+                            if b["i"] != t["i"] or b["o"] != t["o"] or not (equivalent_tol(b["a"], t["a"]) and equivalent_tol(b["a"] + b["g"], t["a"] + t["g"])):
+                                ctx.violation("serialize:file_entry_changed", "an entry of a machine file came back with another entry's numbers (the entries print alike)",
+                                              dict(info, read_back=cf.jsonable_contract(b)))
+                                break
+        # ---- compound contracts through the dictionary of strings and the human-readable file: alternative by alternative
+        if k % 6 == 2:
+            compound_roundtrip(ctx, rng, stats)
         recent.append((k1, c))
         del recent[:-4]
         # ---- string form
